@@ -32,6 +32,13 @@ Proof. exact append_raw_frame. Qed.
 Theorem C18_frame_insert : forall p index it, extends p (insert_raw p index it) [it].
 Proof. exact insert_raw_frame. Qed.
 
+(* Reading taken for comments (reviewer's note): the property's rule "siblings' shared indent, else the
+   parent's own indentation followed by indent_by" is the rule for META ITEMS, which sit one level below
+   their parent. A leading/trailing comment of a posting or meta item sits on the SAME level as its owner
+   (it is printed directly above / below the owner's line), so for "an indented leading/trailing comment
+   created from a plain value" model and monitor take: the comment's indent is its OWNER's current indent
+   (optional_indented_string_property passes raw_indent.value to BlockComment.from_value), on every line of
+   the comment; indent_by plays no part. Entries' comments are unindented (optional_string_property). *)
 (* a leading/trailing comment created from a string takes its owner's indent, on every line; replacing
    the text of an existing comment keeps that comment's indent *)
 Theorem C18_comment_indent : forall cur owner_indent ls c,
